@@ -224,6 +224,126 @@ mod c10 {
         fn poll_read(self: Pin<&mut Self>, _: &mut Context<'_>, _: &mut [u8]) -> Poll<io::Result<usize>> { Poll::Pending }
     }
 
+    /// Input of the request: one scripted chunk per read call (never Pending, end-of-file after the last one).
+    pub struct Script { pub chunks: Vec<Vec<u8>>, pub next: usize }
+    impl AsyncRead for Script {
+        fn poll_read(mut self: Pin<&mut Self>, _: &mut Context<'_>, buf: &mut [u8]) -> Poll<io::Result<usize>> {
+            if self.next >= self.chunks.len() { return Poll::Ready(Ok(0)); }
+            let i = self.next;
+            let n = self.chunks[i].len().min(buf.len());
+            buf[..n].copy_from_slice(&self.chunks[i][..n]);
+            if n == self.chunks[i].len() { self.next += 1; } else { self.chunks[i].drain(..n); }
+            Poll::Ready(Ok(n))
+        }
+    }
+
+    fn rec(t: u8, id: u16, body: &[u8]) -> Vec<u8> {
+        let pad = (8 - body.len() % 8) % 8;
+        let mut v = vec![1, t, (id >> 8) as u8, id as u8, (body.len() >> 8) as u8, body.len() as u8, pad as u8, 0];
+        v.extend_from_slice(body);
+        v.extend(std::iter::repeat(0).take(pad));
+        v
+    }
+
+    /// Writers on their own threads while a further thread reads the request's input, which contains management
+    /// queries: the request's reply flushing (poll_output) competes with the writers for the output lock.
+    pub fn run_with_reader(nwriters: usize, per_writer: usize, queries: usize) {
+        let cfg = Config::with_conns(1.try_into().unwrap());
+        let wire: Vec<u8> = [&[1u8, 1, 0, 7, 0, 8, 0, 0, 0, 1, 0, 0, 0, 0, 0, 0][..], &[1, 4, 0, 7, 0, 0, 0, 0][..]].concat();
+        let mut rp = request::Parser::new(&cfg);
+        rp.input_buffer()[..wire.len()].copy_from_slice(&wire);
+        assert!(rp.parse(wire.len()).done);
+        let sp = rp.into_stream_parser().unwrap();
+        // Stdin data and GetValues(FCGI_MPXS_CONNS) queries alternate, one record per transport read
+        let mut chunks = Vec::new();
+        let mut q = Vec::new();
+        q.push(15u8); q.push(0); q.extend_from_slice(b"FCGI_MPXS_CONNS");
+        for k in 0..queries {
+            chunks.push(rec(5, 7, &[b'a' + k as u8; 5]));
+            chunks.push(rec(9, 0, &q));
+        }
+        chunks.push(rec(5, 7, b"tail"));
+        chunks.push(rec(5, 7, b""));
+        let log = Arc::new(Mutex::new(Vec::new()));
+        let mut req = Request::new(sp, Script { chunks, next: 0 }, Sink { log: log.clone(), max: 3, calls: 0 });
+        let writers: Vec<_> = (0..nwriters).map(|wi| req.output_stream(if wi % 2 == 0 { fastcgi_server::protocol::RecordType::Stdout } else { fastcgi_server::protocol::RecordType::Stderr })).collect();
+        let (req, got) = std::thread::scope(|sc| {
+            for (wi, mut w) in writers.into_iter().enumerate() {
+                sc.spawn(move || {
+                    let park = Arc::new(Park { woken: AtomicBool::new(true), thread: std::thread::current() });
+                    let waker = Waker::from(park.clone());
+                    let mut cx = Context::from_waker(&waker);
+                    for k in 0..per_writer {
+                        let len = [1usize, 8, 13, 30][(wi + k) % 4];
+                        let data: Vec<u8> = (0..len).map(|i| (wi as u8) << 6 | (k as u8) << 3 | (i as u8 & 7)).collect();
+                        let mut off = 0;
+                        while off < data.len() {
+                            while !park.woken.swap(false, Ordering::SeqCst) { std::thread::park(); }
+                            match Pin::new(&mut w).poll_write(&mut cx, &data[off..]) {
+                                Poll::Ready(Ok(n)) => { off += n; park.woken.store(true, Ordering::SeqCst); }
+                                Poll::Ready(Err(e)) => violation("C10", &format!("write failed: {e}")),
+                                Poll::Pending => {}
+                            }
+                        }
+                    }
+                    drop(w);
+                });
+            }
+            let reader = sc.spawn(move || {
+                let park = Arc::new(Park { woken: AtomicBool::new(true), thread: std::thread::current() });
+                let waker = Waker::from(park.clone());
+                let mut cx = Context::from_waker(&waker);
+                let mut got = Vec::new();
+                loop {
+                    while !park.woken.swap(false, Ordering::SeqCst) { std::thread::park(); }
+                    let mut buf = [0u8; 16];
+                    match Pin::new(&mut req).poll_read(&mut cx, &mut buf) {
+                        Poll::Ready(Ok(0)) => break,
+                        Poll::Ready(Ok(n)) => { got.extend_from_slice(&buf[..n]); park.woken.store(true, Ordering::SeqCst); }
+                        Poll::Ready(Err(e)) => violation("C10", &format!("read failed: {e}")),
+                        Poll::Pending => {}
+                    }
+                }
+                (req, got)
+            });
+            reader.join().unwrap()
+        });
+        let expect_in: Vec<u8> = (0..queries).flat_map(|k| vec![b'a' + k as u8; 5]).chain(b"tail".iter().copied()).collect();
+        if got != expect_in { violation("C09", "reader thread received wrong stdin bytes"); }
+        drop(req);
+        // decode: complete records only; writer records homogeneous; replies whole
+        let log = log.lock().unwrap();
+        let mut p = 0;
+        let mut replies = 0;
+        let mut seen: Vec<Vec<usize>> = vec![Vec::new(); nwriters];
+        while p < log.len() {
+            if log.len() - p < 8 { violation("C10", "log ends inside a record header"); }
+            let (ver, t, id, cl, pad) = (log[p], log[p + 1], u16::from_be_bytes([log[p + 2], log[p + 3]]), usize::from(u16::from_be_bytes([log[p + 4], log[p + 5]])), usize::from(log[p + 6]));
+            if log.len() - p < 8 + cl + pad { violation("C10", "log ends inside a record"); }
+            let body = &log[p + 8..p + 8 + cl];
+            if ver == 1 && t == 10 && id == 0 {
+                if body != b"\x0f\x01FCGI_MPXS_CONNS0" { violation("C10", &format!("GetValuesResult at {p} has a foreign body (records interleaved)")); }
+                replies += 1;
+            } else {
+                if ver != 1 || id != 7 || !(t == 6 || t == 7) { violation("C10", &format!("malformed record header at {p}: version {ver} type {t} id {id} (records interleaved)")); }
+                if pad >= 8 || (cl + pad) % 8 != 0 { violation("C10", "padding rule violated"); }
+                let wi = usize::from(body[0] >> 6);
+                let k = usize::from((body[0] >> 3) & 7);
+                if wi >= nwriters || (t == 6) != (wi % 2 == 0) { violation("C10", "record type does not match its writer"); }
+                for (i, b) in body.iter().enumerate() {
+                    if *b != ((wi as u8) << 6 | (k as u8) << 3 | (i as u8 & 7)) { violation("C10", &format!("record payload mixes bytes of different writes at {}", p + 8 + i)); }
+                }
+                if cl != [1usize, 8, 13, 30][(wi + k) % 4] { violation("C10", "record length differs from the write"); }
+                seen[wi].push(k);
+            }
+            p += 8 + cl + pad;
+        }
+        if replies != queries { violation("C10", &format!("{replies} GetValuesResult records for {queries} queries")); }
+        for (wi, ks) in seen.iter().enumerate() {
+            if *ks != (0..per_writer).collect::<Vec<_>>() { violation("C10", &format!("writer {wi}: records {ks:?} (order or count wrong)")); }
+        }
+    }
+
     struct Park { woken: AtomicBool, thread: std::thread::Thread }
     impl Wake for Park {
         fn wake(self: Arc<Self>) { self.wake_by_ref(); }
@@ -310,8 +430,8 @@ fn main() {
             c14(3, 2);
         }
         Some("c10") => {
-            c10::run(2, 3);
-            c10::run(3, 2);
+            c10::run(2, 2);
+            c10::run_with_reader(3, 3, 5);
         }
         _ => { eprintln!("usage: fcgimiri c10|c13|c14"); std::process::exit(2); }
     }
